@@ -124,6 +124,7 @@ def run(prog, rep, tier='quick', config='default'):
                                          '(safe_page_chunks_with_remainder*): out-of-range pages would be requested and unlisted pages never visited')
     if n_sites == 0:
         rep.violation('R20a', 'anchor-lost:no-iterator-user', detail='anchor lost: no product call site constructs the optimised page iterator')
+    r20cd(prog, rep, adt['name'], it_name)
     rep.extra['page_cache_mutation_sites'] = n_mut
     rep.extra['iterator_construction_sites'] = n_sites
 
@@ -156,3 +157,49 @@ def guarded_growth(prog, fn, c, adt, field):
                 return True, 'guarded by n %s len' % op
             return False, 'guard has the wrong polarity'
     return False, 'no dominating comparison with len()'
+
+
+LENCHG = {'filter', 'filter_map', 'skip', 'skip_while', 'take_while', 'take', 'step_by', 'retain', 'dedup', 'truncate', 'drain'}
+
+
+def r20cd(prog, rep, cache_adt, iter_adt):
+    """R20c: every page popped by the iterator is yielded (no skipping); R20d: every requested page is loaded."""
+    nxt = [f for f in prog.product_fns() if f.name.startswith('<' + iter_adt) and f.name.endswith('::next')]
+    if rep.anchor('Iterator::next of the page iterator', nxt):
+        f = nxt[0]
+        pops = [c for c in f.calls if c.short in ('pop_front', 'pop', 'pop_back', 'remove') and re.search(r'VecDeque|Vec', c.callee)]
+        k = '%s|popped-page-is-yielded' % f.name
+        if not pops:
+            rep.violation('R20c', 'anchor-lost:pop', fn=f.name, detail='anchor lost: the iterator no longer pops the next page number')
+        else:
+            in_loop = [c for c in pops if f.loop_of(c.bb) is not None]
+            again = [c for c in pops if any(f.reaches(c.bb, d.bb) for d in pops)]
+            if in_loop or again:
+                c = (in_loop or again)[0]
+                rep.violation('R20c', k, where=c.where(), fn=f.name,
+                              detail='after taking a page number the iterator can take another one without yielding the first: a page of the document is skipped')
+            else:
+                # the popped page's text is unwrapped (a missing page is a bug, not something to skip)
+                rep.ok('R20c', k, where=pops[0].where(), fn=f.name, detail='each call pops one page number and returns it (no loop back to another pop)')
+    loaders = [f for f in prog.product_fns() if f.name.startswith(cache_adt + '::') and
+               any(c.callee.startswith('peripheral::pdf::get_pages_text') for c in f.calls)]
+    if rep.anchor('page loader of the page cache', loaders):
+        f = loaders[0]
+        for c in f.calls:
+            if not c.callee.startswith('peripheral::pdf::get_pages_text'):
+                continue
+            org = mir.provenance(f, c.args[-1], follow_all_call_args=True)
+            ch = [x for x in org.calls if x.short in LENCHG]
+            k = '%s|all-requested-pages-loaded' % f.name
+            if ch or not org.params:
+                rep.violation('R20d', k, where=c.where(), fn=f.name,
+                              detail='the pages handed to the text extractor are not exactly the requested page numbers (%s): a requested page may never be loaded'
+                                     % (ch[0].short if ch else 'not the parameter'))
+            else:
+                rep.ok('R20d', k, where=c.where(), fn=f.name, detail='the extractor receives the requested page list unfiltered')
+        zips = [c for c in f.calls if c.short == 'zip']
+        for c in zips:
+            org = mir.provenance(f, c.args[0], follow_all_call_args=True)
+            ch = [x for x in org.calls if x.short in LENCHG]
+            if ch:
+                rep.violation('R20d', '%s|zip-over-requested-pages' % f.name, where=c.where(), fn=f.name, detail='loaded texts are paired with a filtered page list')
